@@ -46,6 +46,7 @@ def parseOp : List String → Option Op
   | ["setud", i, t] => do pure (.setUserdata (← i.toNat?) (← parseVal t))
   | ["setser", i, t] => do pure (.setSerializer (← i.toNat?) (← parseVal t))
   | ["setserp", i, t] => do pure (.setSerializer (← i.toNat?) (← parseVal t))
+  | ["setserd", i, t] => do pure (.setSerializer (← i.toNat?) (← parseVal t))
   | ["copy", s, f] => do pure (.deepCopy (← s.toNat?) (← parseVal f))
   | ["ptrset", r, path, v] => do
       -- the pointer text in hex; reference tokens are what lies between the '/' (no `~` escapes generated)
